@@ -289,7 +289,12 @@ def run (ctx):
   for n in ehs:
     rv = n.ast.targets[0].id if isinstance(n.ast, ast.Assign) and isinstance(n.ast.targets[0], ast.Name) else None
     brk = [b for b in g.nodes if b.kind == 'break' and rv and ('%s is False' % rv) in q.fact_strs(g, b) and b in g.reachable(n, avoid=[L.head])]
-    ctx.ob('R-EFFECT', f, "`%s`: a handler that closed the connection stops the loop" % n.text(50), bool(brk), "if r is False: break" if brk else "result of the error handler is ignored", (f.module, n.ast), 'D3')
+    if not brk:
+      # by evaluation: with the error handler answering False (it closed the connection) no path from the call comes round to the loop head
+      def hookF (call, env=None): return (True, False) if call_name(call) == '_error_handler' else (False, None)
+      ps_ = q.paths_under(repo, f.module, g, q.Env({}, [], hookF), n, [L.head, L.after, g.exit], f.cls, limit=100, track_start=True)
+      if ps_ and not any(p_[-1] is L.head for p_, e_ in ps_): brk = [n]
+    ctx.ob('R-EFFECT', f, "`%s`: a handler that closed the connection stops the loop" % n.text(50), bool(brk), "leaves the loop when the handler returns False" if brk else "result of the error handler is ignored", (f.module, n.ast), 'D3')
   eh = ofc.find_method('_error_handler')
   if eh is not None:
     ctx.analysed(eh); g2 = q.cfg_of(eh)
